@@ -253,7 +253,7 @@ unit({
     },
     'functions': [
         _lz('HuffLZ', cname='HuffLZ_ctor', ctor=True), _lz('InitializeDecompressBuffer'),
-        _lz('GetData'), _lz('GetInternalBuffer'), _lz('FillDecompressBuffer'), _lz('CopyAvailableData'), _lz('DecompressCode'),
+        _lz('GetData', calls={'CopyAvailableData': N('HuffLZ_CopyAvailableData_U')}), _lz('GetInternalBuffer'), _lz('FillDecompressBuffer'), _lz('CopyAvailableData'), _lz('DecompressCode'),
         _lz('GetNextCode'), _lz('GetRepeatOffset', autos={'modifiers': 'OffsetModifiers', 'i': 'unsigned int'}), _lz('WriteCharToBuffer'),
         _lz('GetOffsetModifiers', static=True, ret_cxx='OffsetModifiers'),
     ],
